@@ -134,9 +134,17 @@ fn gen_load_from_source(ctx: &mut Ctx) -> Result<String, String> {
     let closure = match &st[0] { Stmt::Local(l) if squash(&l.pat) == "load_with_ext" => match l.init.as_ref().map(|i| &*i.expr) { Some(Expr::Closure(c)) => c, _ => return bad("load_with_ext is not a closure") }, _ => return bad("first statement") };
     let cb = match &*closure.body { Expr::Block(b) => &b.block.stmts, _ => return bad("closure body") };
     if cb.len() != 2 { return bad("closure statement count"); }
-    let chain = match &cb[0] { Stmt::Local(l) if squash(&l.pat) == "asset" => squash(&l.init.as_ref().unwrap().expr), _ => return bad("closure let") };
-    if chain != "source.read(id,ext)?.with_cow(|content|T::Loader::load(content,ext))?" { return bad(&format!("read/decode chain is `{chain}`")); }
-    if squash(&cb[1]) != "Ok(asset)" { return bad("closure result"); }
+    // two recognised spellings of the same closure: with `?` (the `From` impls of ErrorKind turn an io::Error into `Io`, a
+    // BoxedError into `Conversion` — checked below), or with the two conversions written out as explicit matches
+    let explicit = squash(&cb[0]) == "letcontent=matchsource.read(id,ext){Ok(content)=>content,Err(err)=>returnErr(ErrorKind::Io(err)),};"
+        && squash(&cb[1]) == "matchcontent.with_cow(|content|T::Loader::load(content,ext)){Ok(asset)=>Ok(asset),Err(err)=>Err(ErrorKind::Conversion(err)),}";
+    if !explicit {
+        let chain = match &cb[0] { Stmt::Local(l) if squash(&l.pat) == "asset" => squash(&l.init.as_ref().unwrap().expr), _ => return bad("closure let") };
+        if chain != "source.read(id,ext)?.with_cow(|content|T::Loader::load(content,ext))?" { return bad(&format!("read/decode chain is `{chain}`")); }
+        if squash(&cb[1]) != "Ok(asset)" { return bad("closure result"); }
+        let err_src: String = std::fs::read_to_string(ctx.repo.join("src/error.rs")).map_err(|e| e.to_string())?.chars().filter(|c| !c.is_whitespace()).collect();
+        if !(err_src.contains("implFrom<io::Error>forErrorKind{fnfrom(err:io::Error)->Self{Self::Io(err)}}") && err_src.contains("implFrom<BoxedError>forErrorKind{fnfrom(err:BoxedError)->Self{Self::Conversion(err)}}")) { return bad("the `From` impls of ErrorKind behind `?` are not the plain `Io` / `Conversion` wrappers"); }
+    }
     // 2. let mut error = ErrorKind::NoDefaultValue;
     let init = match &st[1] { Stmt::Local(l) if squash(&l.pat) == "muterror" => squash(&l.init.as_ref().unwrap().expr), _ => return bad("error initialiser") };
     let init_lean = match init.as_str() { "ErrorKind::NoDefaultValue" => ".noDefault", _ => return bad("initial error value") };
@@ -370,9 +378,26 @@ fn gen_shards(ctx: &mut Ctx) -> Result<String, String> {
         let mut hashes_key = false;
         for st in &f.block.stmts {
             if let Stmt::Local(l) = st {
-                if squash(&l.pat) == "id" { idx = Some(nat_expr(&l.init.as_ref().ok_or("no init")?.expr, &[("hasher.finish()", "hash"), ("self.shards.len()", "len")]).map_err(|e| format!("AssetMap::{fname}: {e}"))?); }
+                let via_helper = l.init.as_ref().map(|i| { let t = squash(&i.expr); t.starts_with("self.") && t.ends_with("(key)") }).unwrap_or(false);
+                if squash(&l.pat) == "id" && !via_helper { idx = Some(nat_expr(&l.init.as_ref().ok_or("no init")?.expr, &[("hasher.finish()", "hash"), ("self.shards.len()", "len")]).map_err(|e| format!("AssetMap::{fname}: {e}"))?); }
             }
             if squash(st) == "key.hash(&muthasher);" { hashes_key = true; }
+        }
+        // `let id = self.<helper>(key);` — the computation moved into a private helper of the same impl: follow it (one level)
+        if idx.is_none() {
+            for st in &f.block.stmts {
+                if let Stmt::Local(l) = st {
+                    if squash(&l.pat) != "id" { continue; }
+                    let init = squash(&l.init.as_ref().ok_or("no init")?.expr);
+                    if let Some(h) = init.strip_prefix("self.").and_then(|r| r.strip_suffix("(key)")) {
+                        let hf = find_fn(&file, "AssetMap", h)?;
+                        for hs in &hf.block.stmts { if squash(hs) == "key.hash(&muthasher);" { hashes_key = true; } }
+                        if let Some(Stmt::Expr(e, None)) = hf.block.stmts.last() {
+                            idx = Some(nat_expr(e, &[("hasher.finish()", "hash"), ("self.shards.len()", "len")]).map_err(|e| format!("AssetMap::{h}: {e}"))?);
+                        }
+                    }
+                }
+            }
         }
         let tail = f.block.stmts.last().map(|s| squash(s)).unwrap_or_default();
         if !(tail == "&self.shards[id]" || tail == "&mutself.shards[id]") { return Err(format!("AssetMap::{fname}: does not return `shards[id]`")); }
